@@ -7,6 +7,7 @@ import (
 	"reflect"
 	"sort"
 	"strings"
+	"syscall"
 	"testing"
 
 	"github.com/hattya/go.sh/pattern"
@@ -128,7 +129,9 @@ func checkC16(c c16Case) error {
 
 func init() { reg("C16", "glob", checkC16) }
 
-var c16Names = []string{"a", "b", "ab", "abc", "a-b", "a.d", ".h", ".hid", "é", "日本", "x*", "q?", "[z]", "a b", "sub", "dir", "d2", "A", "a+", "(p)", "t^", "$v", "{c}", "e|f", "-", "~"}
+var c16Names = []string{"a", "b", "ab", "abc", "a-b", "a.d", ".h", ".hid", "é", "日本", "x*", "q?", "[z]", "a b", "sub", "dir", "d2", "A", "a+", "(p)", "t^", "$v", "{c}", "e|f", "-", "~",
+	// long names: the pattern made from them by escaping or bracketing every character is longer than NAME_MAX
+	"L" + strings.Repeat("o", 130), strings.Repeat("*", 100), strings.Repeat("ab", 60)}
 
 func c16NonTrivial(p string) bool {
 	comps := strings.Split(strings.Trim(p, "/"), "/")
@@ -151,6 +154,37 @@ func TestC16(t *testing.T) {
 	ntrees /= nsh
 	if ntrees < 4 {
 		ntrees = 4
+	}
+	// a wide tree under a small limit of open files: every directory a pattern
+	// component visits has to be closed again before the next one is opened
+	if sh, _ := shard(); sh == 0 {
+		var lim, old syscall.Rlimit
+		if err := syscall.Getrlimit(syscall.RLIMIT_NOFILE, &old); err == nil {
+			lim = old
+			lim.Cur = 64
+			if syscall.Setrlimit(syscall.RLIMIT_NOFILE, &lim) == nil {
+				var tree []c16Entry
+				for i := 0; i < 300; i++ {
+					d := fmt.Sprintf("d%03d", i)
+					tree = append(tree, c16Entry{Path: d, Kind: "dir"}, c16Entry{Path: d + "/f", Kind: "file"})
+				}
+				err := withTree(tree, func(root string) error {
+					for _, pat := range []string{"*/f", "*/*", "d*/?", "d1*/f", "*/", "d00*/../d01*/f"} {
+						c := c16Case{Tree: tree, Pattern: pat}
+						if _, err := checkC16InTree(root, c); err != nil {
+							fail(t, "C16", "glob", c, "%v\n(300 directories, at most 64 open files)", err)
+						}
+						st.EvalN(1, 1)
+						st.Class("wide_tree_under_a_small_open_file_limit")
+					}
+					return nil
+				})
+				syscall.Setrlimit(syscall.RLIMIT_NOFILE, &old)
+				if err != nil {
+					t.Fatalf("INFRA: %v", err)
+				}
+			}
+		}
 	}
 	prop := func(rt *rapid.T) {
 		// a random tree
@@ -213,7 +247,13 @@ func TestC16(t *testing.T) {
 						b.WriteString(rapid.SampledFrom([]string{"/", "/", "/", "//", `\/`}).Draw(rt, "slash"))
 						continue
 					}
-					switch rapid.IntRange(0, 11).Draw(rt, "gen") {
+					kind := rapid.IntRange(0, 11).Draw(rt, "gen")
+					if len(base) > 40 {
+						// a long name: only forms that still match one character each
+						// (wildcards by the dozen would take the reference matcher for ever)
+						kind = []int{2, 4, 2, 4, 4, 2, 7, 7, 7, 7, 7, 7}[kind]
+					}
+					switch kind {
 					case 0:
 						b.WriteString("?")
 					case 1:
